@@ -63,3 +63,50 @@ def run(ctx, col, modules, rule="R-NAMESFWD", floor=2):
     col.check(ok, rule, "sa.fixtures.namesfwd_positive", "sa/fixtures/namesfwd_positive.py:1", f"lint recognises its kept examples ({n} constructor call(s) with own-keyed columns)", str(found),
               f"fixture results {found}", stmt="fixture")
     return n
+
+
+def run_allcols(ctx, col, class_quals, rule="R-ALLCOLS"):
+    """A detached copy carries every column of its owner: the constructor call that `detach` reaches (directly or through helpers called on self) takes its columns from a
+    comprehension over `<self>.keys()` -- a fixed list of the seven standard columns drops the extra per-node columns."""
+    col.rule(rule, "a detached view carries every column: the DictSWC that `detach` builds (directly or in a helper it calls on self) takes its columns from a comprehension over "
+             "`self.keys()`; a fixed list of the standard columns (id, type, x, y, z, r, pid) silently drops the extra per-node columns", floor=1)
+    for q in class_quals:
+        try:
+            C = ctx.repo.get_class(q)
+        except Exception:  # noqa: BLE001
+            continue
+        det = C.lookup_method("detach")
+        if det is None:
+            continue
+        seen, todo, calls = set(), [det], []
+        while todo:
+            m = todo.pop()
+            if m.qualname in seen:
+                continue
+            seen.add(m.qualname)
+            for c in ast.walk(m.node):
+                if isinstance(c, ast.Call):
+                    if (dotted(c.func) or "").rsplit(".", 1)[-1] in CTORS and (c.keywords or c.args):
+                        calls.append((m, c))
+                    if isinstance(c.func, ast.Attribute) and isinstance(c.func.value, ast.Name) and c.func.value.id == "self":
+                        h = C.lookup_method(c.func.attr)
+                        if h is not None and h.name not in ("id", "pid", "keys", "get_ndata", "x", "y", "z", "r", "type", "xyz", "xyzr"):
+                            todo.append(h)
+        calls = [(m, c) for m, c in calls if (dotted(c.func) or "").rsplit(".", 1)[-1] == "DictSWC"]
+        if not calls:
+            col.unresolved(rule, det.qualname, det.loc(), "the detached copy has all columns", "no DictSWC(...) call reached from detach", stmt="allcols")
+            continue
+
+        def over_keys(e, fn_node):
+            if isinstance(e, ast.Name):
+                for st in ast.walk(fn_node):
+                    if isinstance(st, ast.Assign) and len(st.targets) == 1 and isinstance(st.targets[0], ast.Name) and st.targets[0].id == e.id:
+                        return over_keys(st.value, fn_node)
+                return False
+            return isinstance(e, ast.DictComp) and e.generators and isinstance(e.generators[0].iter, ast.Call) and isinstance(e.generators[0].iter.func, ast.Attribute) \
+                and e.generators[0].iter.func.attr == "keys"
+        good = [(m, c) for m, c in calls if any(k.arg is None and over_keys(k.value, m.node) for k in c.keywords)]
+        m, c = (good or calls)[0]
+        col.check(bool(good), rule, det.qualname, m.loc(c), "the detached copy has all columns", norm_src(c)[:80],
+                  f"`{norm_src(c)[:90]}` (reached from {C.name}.detach) builds the detached table from a fixed set of columns, not from `self.keys()`: per-node columns beyond the seven "
+                  f"standard ones (eswc fields, labels) are missing from the detached copy", stmt="allcols", definite=True)
